@@ -32,6 +32,7 @@ def main(run):
             ops = list(ops) + ["W:A:A"]
             got = cu.run_history(n, divsup, acksup, list(en0), list(div0), ops)
             c["impl"] = got
+            c["rerun"] = (lambda a=(n, divsup, acksup, list(en0), list(div0), list(ops)): cu.run_history(*a, scale=0.08))
             c["nontrivial"] = any(o.startswith("W") and o != "W:A:A" for o in ops)
             last = got.split(" / ")[-1]
             f = dict(kv.split("=") for kv in last.split(" ") if "=" in kv)
